@@ -26,6 +26,11 @@ class Unsupported(Exception):
     pass
 
 
+class NotYet(Exception):
+    """a callee has not been translated yet: the caller is deferred"""
+    pass
+
+
 # ------------------------------------------------------------------------------------ tokenizer
 PUNCT = ["<<=", ">>=", "...", "..=", "::", "->", "=>", "==", "!=", "<=", ">=", "&&", "||", "+=", "-=", "*=", "/=",
          "%=", "^=", "&=", "|=", "<<", ">>", ".."]
@@ -596,8 +601,20 @@ class Parser:
             return ("continue",)
         if self.at("true") or self.at("false"):
             return ("bool", self.next()[1] == "true")
-        if self.at("|") or self.at("||") or self.at("move"):
+        if self.at("||") or self.at("move"):
             raise Unsupported("line %d: closure" % tk[2])
+        if self.at("|"):
+            self.next()
+            params = []
+            while not self.at("|"):
+                params.append(self.pattern1())
+                if self.accept(":"):
+                    self.ty()
+                if not self.accept(","):
+                    break
+            self.expect("|")
+            body = self.expr()
+            return ("closure", params, body)
         if tk[0] == "id":
             path = [self.ident()]
             while self.at("::"):
@@ -867,7 +884,10 @@ class Source:
                     if t[j][1] == "for":
                         names.append("for")
                     if t[j][1] == "<":
-                        j = skip_generics(t, j)
+                        j2 = skip_generics(t, j)
+                        if names and names[-1] != "for" and "for" not in names:
+                            names[-1] = names[-1] + "".join(x[1] for x in t[j:j2] if x[0] != "life")
+                        j = j2
                         continue
                     j += 1
                 if "for" in names:
@@ -934,7 +954,8 @@ class Source:
 # Rust type -> (Coq carrier, operator prefix).  u32 is N with checked operators; usize is nat (the
 # model's convention for lengths and indices: 64-bit overflow of an index is not modelled, subtraction
 # is checked).
-INT_TYPES = {"u32": ("N", "u32"), "usize": ("nat", "usize"), "u64": ("N", "u64"), "u8": ("N", "u8"), "char": ("N", "u32")}
+INT_TYPES = {"u32": ("N", "u32"), "usize": ("nat", "usize"), "u64": ("N", "u64"), "u8": ("N", "u8"), "char": ("N", "u32"),
+             "i32": ("Z", "i32")}
 # i32 is Z; only constants and their cast to usize are supported so far
 
 
@@ -951,6 +972,10 @@ def is_int(ty):
 
 def is_nat(ty):
     return ty is not None and ty[0] == "ty" and ty[1] == "usize"
+
+
+def is_z(ty):
+    return ty is not None and ty[0] == "ty" and ty[1] == "i32"
 
 
 def is_list(ty):
@@ -1036,8 +1061,6 @@ class Ctx:
             return "(list %s)" % self.coq_ty(args[0])
         if name in ("str", "String"):
             return "(list N)"
-        if name == "i32":
-            return "Z"
         if name == "Ordering":
             return "comparison"
         if self.struct(name) is not None or self.enum(name) is not None:
@@ -1052,6 +1075,19 @@ class Ctx:
         if ty[1] == "Self":
             return T(impl)
         return ("ty", ty[1], [self.resolve_self(x, impl) for x in ty[2]])
+
+
+def same_type(a, b):
+    if a is None or b is None:
+        return False
+    if a[0] != b[0]:
+        return False
+    if a[0] == "tup":
+        return len(a[1]) == len(b[1]) and all(same_type(x, y) for x, y in zip(a[1], b[1]))
+    na = "slice" if a[1] in ("slice", "Vec") and b[1] in ("slice",) else a[1]
+    if a[1] != b[1] and not ({a[1], b[1]} <= {"str", "String"}):
+        return False
+    return len(a[2]) == len(b[2]) and all(same_type(x, y) for x, y in zip(a[2], b[2]))
 
 
 def walk(e, f):
@@ -1298,6 +1334,8 @@ class FnTranslator:
                 return T("bool")
             return self.ty_of(e[2], env) or self.ty_of(e[3], env)
         if k == "unary":
+            if e[1] == "-" and e[2][0] == "int" and not e[2][2]:
+                return T("i32")
             return self.ty_of(e[2], env)
         if k == "cast":
             return e[2]
@@ -1310,6 +1348,8 @@ class FnTranslator:
                 if p == ["Some"]:
                     a = self.ty_of(e[2][0], env)
                     return T("Option", a) if a else None
+                if len(p) == 2 and p[1] == "from" and len(e[2]) == 1:
+                    return T(p[0] if p[0] != "Self" else self.impl)
                 info = self.lookup_fn(p)
                 if info:
                     return info["full_ret"]
@@ -1336,6 +1376,13 @@ class FnTranslator:
                     if m in ("saturating_sub", "saturating_add", "wrapping_add", "wrapping_sub", "min", "max", "pow"):
                         return rt
                 if rt[1] == "Option":
+                    if m == "and_then" and e[3] and e[3][0][0] == "closure":
+                        env2 = dict(env)
+                        try:
+                            self.pat(e[3][0][1][0], rt[2][0], env2)
+                        except Unsupported:
+                            return None
+                        return self.ty_of(e[3][0][2], env2)
                     if m in ("unwrap", "expect", "unwrap_or"):
                         return rt[2][0]
                     if m in ("is_some", "is_none"):
@@ -1351,8 +1398,18 @@ class FnTranslator:
                         return T("usize")
                     if m == "is_empty":
                         return T("bool")
-                    if m in ("iter", "to_vec", "clone"):
+                    if m in ("iter", "to_vec", "clone", "collect"):
                         return rt
+                    if m in ("all", "any"):
+                        return T("bool")
+                    if m == "map" and e[3] and e[3][0][0] == "closure":
+                        env2 = dict(env)
+                        try:
+                            self.pat(e[3][0][1][0], rt[2][0], env2)
+                        except Unsupported:
+                            return None
+                        bt = self.ty_of(e[3][0][2], env2)
+                        return T("Vec", bt) if bt else None
                     if m in ("last", "first"):
                         return T("Option", rt[2][0])
                 if m == "clone":
@@ -1376,7 +1433,7 @@ class FnTranslator:
         if k == "index":
             t = self.ty_of(e[1], env)
             if is_list(t):
-                return t if e[2][0] == "range" else t[2][0]
+                return T("slice", t[2][0]) if e[2][0] == "range" else t[2][0]
             return None
         if k == "try":
             t = self.ty_of(e[1], env)
@@ -1394,6 +1451,15 @@ class FnTranslator:
         if k == "arrayrep":
             t = self.ty_of(e[1], env)
             return T("slice", t) if t else None
+        return None
+
+    def lookup_from(self, target, argty):
+        """impl From<argty> for target"""
+        if argty is None:
+            return None
+        for (impl, name), info in self.c.fn_info.items():
+            if impl == target and name.startswith("from<") and info["params"] and same_type(info["params"][0][1], argty):
+                return info
         return None
 
     def lookup_fn(self, path):
@@ -1424,7 +1490,7 @@ class FnTranslator:
                 del env[p[1]]
             return var(p[1])
         if k == "plit":
-            return "%d%s" % (p[1], "%nat" if is_nat(ty) else "")
+            return "%d%s" % (p[1], "%nat" if is_nat(ty) else ("%Z" if is_z(ty) else ""))
         if k == "pbool":
             return "true" if p[1] else "false"
         if k == "ptuple":
@@ -1478,7 +1544,11 @@ class FnTranslator:
         return INT_TYPES[t][1]
 
     def lit(self, v, want):
-        return "%d%%nat" % v if is_nat(want) else "%d" % v
+        if is_nat(want):
+            return "%d%%nat" % v
+        if is_z(want):
+            return "%d%%Z" % v if v >= 0 else "(%d)%%Z" % v
+        return "%d" % v
 
     def pure(self, e, env, want=None):
         """Gallina term for e if e cannot panic and has no control effect, else None"""
@@ -1530,6 +1600,8 @@ class FnTranslator:
                 return None
             if e[1] == "!":
                 return "(negb %s)" % a
+            if e[1] == "-" and e[2][0] == "int":
+                return "(-%d)%%Z" % e[2][1]
             return None
         if k == "binary":
             op = e[1]
@@ -1581,6 +1653,8 @@ class FnTranslator:
                 raise Unsupported("call of a computed function")
             p = f[1]
             info = self.lookup_fn(p)
+            if info is None and len(p) == 2 and p[1] == "from" and len(e[2]) == 1:
+                return None
             ptys = [pt for (n_, pt) in info["params"] if n_ != "self"] if info else []
             ev = self.enum_variant(p) if not info else None
             if ev:
@@ -1614,11 +1688,35 @@ class FnTranslator:
         if k == "mcall":
             m = e[2]
             rt = self.ty_of(e[1], env)
-            if m in MUTATING_METHODS:
+            if m in MUTATING_METHODS or m == "into":
                 return None
             if m in ("iter", "clone", "to_vec", "copied", "cloned") and not e[3]:
                 return self.pure(e[1], env)
             if m == "chars" and is_str(rt):
+                return self.pure(e[1], env)
+            if e[3] and e[3][0][0] == "closure" and len(e[3]) == 1 and len(e[3][0][1]) == 1:
+                cl = e[3][0]
+                r0 = self.pure(e[1], env)
+                if r0 is None:
+                    return None
+                env2 = dict(env)
+                if is_list(rt) and m in ("all", "any", "map"):
+                    ps = self.pat(cl[1][0], rt[2][0], env2)
+                    body = self.pure_any(cl[2], env2, rt[2][0] if m == "map" else None)
+                    if body is None:
+                        return None
+                    fn = {"all": "forallb", "any": "existsb", "map": "map"}[m]
+                    return "(%s (fun %s => %s) %s)" % (fn, ps, body, r0)
+                if rt is not None and rt[0] == "ty" and rt[1] == "Option" and m in ("and_then", "map"):
+                    ps = self.pat(cl[1][0], rt[2][0], env2)
+                    body = self.pure_any(cl[2], env2)
+                    if body is None:
+                        return None
+                    if m == "map":
+                        body = "Some %s" % body
+                    return "match %s with Some %s => %s | None => None end" % (r0, ps, body)
+                raise Unsupported("closure argument of .%s" % m)
+            if m == "collect" and not e[3]:
                 return self.pure(e[1], env)
             if rt is not None and rt[0] == "ty" and rt[1] == "char" and m == "to_digit" and len(e[3]) == 1 and e[3][0] == ("int", 16, None):
                 r0 = self.pure(e[1], env)
@@ -1641,6 +1739,8 @@ class FnTranslator:
                     pre = INT_TYPES[rt[1]][1]
                     if m in ("checked_add", "checked_mul", "checked_sub"):
                         return "(%s_%s %s %s)" % (pre, m[8:], r, args[0])
+                    if is_z(rt):
+                        raise Unsupported("method i32.%s" % m)
                     if m == "saturating_sub":
                         return "(%s.sub %s %s)" % ("Nat" if is_nat(rt) else "N", r, args[0])
                     if m in ("min", "max"):
@@ -1706,6 +1806,10 @@ class FnTranslator:
                 return None
             src = self.ty_of(e[1], env)
             dst = e[2]
+            if is_z(dst) and src is not None and src[0] == "ty" and src[1] in ("u32", "char"):
+                return "(u32_as_i32 %s)" % a
+            if is_z(src) and dst[0] == "ty" and dst[1] == "u32":
+                return "(i32_as_u32 %s)" % a
             if src is not None and src[0] == "ty" and src[1] == "i32" and is_nat(dst):
                 if e[1][0] == "path" and self.c.const(e[1][1][-1]):
                     return "(Z.to_nat %s)" % a          # a non-negative constant
@@ -1744,6 +1848,13 @@ class FnTranslator:
                 return "(Nat.ltb %s %s)" % (b, a)
             if op == ">=":
                 return "(Nat.leb %s %s)" % (b, a)
+            return m[op] % (a, b)
+        if is_z(ty):
+            m = {"==": "(Z.eqb %s %s)", "!=": "(negb (Z.eqb %s %s))", "<": "(Z.ltb %s %s)", "<=": "(Z.leb %s %s)"}
+            if op == ">":
+                return "(Z.ltb %s %s)" % (b, a)
+            if op == ">=":
+                return "(Z.leb %s %s)" % (b, a)
             return m[op] % (a, b)
         if ty is None or is_int(ty):
             m = {"==": "(%s =? %s)", "!=": "(negb (%s =? %s))", "<": "(%s <? %s)", "<=": "(%s <=? %s)"}
@@ -1874,10 +1985,17 @@ class FnTranslator:
                 raise Unsupported("call of a computed function")
             p = f[1]
             info = self.lookup_fn(p)
+            if info is None and len(p) == 2 and p[1] == "from" and len(e[2]) == 1:
+                info = self.lookup_from(p[0] if p[0] != "Self" else self.impl, self.ty_of(e[2][0], env))
+                if info is None:
+                    raise Unsupported("%s::from at argument type %s" % (p[0], self.ty_of(e[2][0], env)))
             ptys = [pt for (n_, pt) in info["params"] if n_ != "self"] if info else []
             ev = self.enum_variant(p) if not info else None
             if ev:
                 ptys = ev[2]
+
+            if info and info["pure"] is None:
+                raise NotYet(info["coq"])
 
             def with_args(args):
                 if info:
@@ -1892,8 +2010,42 @@ class FnTranslator:
             rt = self.ty_of(e[1], env)
             m = e[2]
             info = self.c.fn_info.get((rt[1], m)) if rt and rt[0] == "ty" else None
+            if info and info["pure"] is None:
+                raise NotYet(info["coq"])
             if info and info["mutself"]:
                 return self.tr_mutcall(e, env, k, info)
+            if m == "into" and not e[3]:
+                target = want if want is not None else self.ret
+                finfo = self.lookup_from(target[1], rt) if target is not None and target[0] == "ty" else None
+                if finfo is None:
+                    raise Unsupported(".into() from %s to %s" % (rt, target))
+                if finfo["pure"] is None:
+                    raise NotYet(finfo["coq"])
+
+                def with_recv(r):
+                    t = self.c.fresh()
+                    return "do %s <- M_%s %s;\n%s" % (t, finfo["coq"], r, k(t))
+                return self.tr(e[1], env, with_recv)
+            if e[3] and e[3][0][0] == "closure" and len(e[3]) == 1 and len(e[3][0][1]) == 1:
+                # iterator / option adaptor whose closure body is monadic (it calls translated functions)
+                cl = e[3][0]
+                if has_exit(cl[2]):
+                    raise Unsupported("early exit inside a closure")
+
+                def with_recv_cl(r0):
+                    env2 = dict(env)
+                    t = self.c.fresh()
+                    if is_list(rt) and m in ("all", "any", "map"):
+                        ps = self.pat(cl[1][0], rt[2][0], env2)
+                        body = self.tr(cl[2], env2, RETURN, rt[2][0] if m == "map" else None)
+                        fn = {"all": "all_m", "any": "any_m", "map": "map_m"}[m]
+                        return "do %s <- %s (fun %s =>\n%s) %s;\n%s" % (t, fn, ps, body, r0, k(t))
+                    if rt is not None and rt[0] == "ty" and rt[1] == "Option" and m in ("and_then", "map"):
+                        ps = self.pat(cl[1][0], rt[2][0], env2)
+                        body = self.tr(cl[2], env2, RETURN if m == "and_then" else (lambda v: "Some (Some %s)" % v))
+                        return "do %s <- (match %s with\n| Some %s =>\n%s\n| None => Some None\nend);\n%s" % (t, r0, ps, body, k(t))
+                    raise Unsupported("closure argument of .%s" % m)
+                return self.tr(e[1], env, with_recv_cl)
             if is_list(rt) and m == "extend_from_slice":
                 def after_ext(v):
                     recv = self.pure(e[1], env)
@@ -1971,7 +2123,7 @@ class FnTranslator:
                         return "do %s <- slice_range %s %s %s;\n%s" % (t, r, a, b, k(t))
                     return self.tr(e[1], env, lambda r: self.tr(lo, env, lambda a: self.tr(hi, env, lambda b: sl2(r, a, b), T("usize")), T("usize")))
                 if lo is None:
-                    raise Unsupported("slice range [..]")
+                    return self.tr(e[1], env, k)            # a[..]: the whole slice
 
                 def sl(r, a):
                     return "if Nat.leb %s (length %s) then\n%s\nelse None" % (a, r, k("(skipn %s %s)" % (a, r)))
@@ -2347,6 +2499,8 @@ def indent(s, n=2):
 
 # ------------------------------------------------------------------------------------ module emission
 def default_term(ctx, t):
+    if is_z(t):
+        return "0%Z"
     if is_nat(t):
         return "0%nat"
     if is_int(t):
@@ -2397,6 +2551,8 @@ def emit_types(ctx, names):
 
 
 def eqb_term(ctx, t, a, b):
+    if is_z(t):
+        return "(Z.eqb %s %s)" % (a, b)
     if is_nat(t):
         return "(Nat.eqb %s %s)" % (a, b)
     if is_int(t):
@@ -2456,6 +2612,17 @@ MODULES = {
                                                                 "add_hex", "accept")]
                      + [(None, None, "parse_smt_literal")],
     },
+    "StrConvGen": {
+        "files": ["smt_strings.rs"],
+        "types": ["SmtString"],
+        "consts": ["MAX_CHAR", "REPLACEMENT_CHAR", "MAX_LENGTH", "EMPTY"],
+        "functions": [("SmtString", None, "make"), ("SmtString", None, "len"), ("SmtString", None, "is_empty"),
+                      ("SmtString", "From<&[u32]>", "from"), ("SmtString", "From<Vec<u32>>", "from"),
+                      ("SmtString", "From<u32>", "from"), ("SmtString", "From<char>", "from"), ("SmtString", "From<&str>", "from"),
+                      (None, None, "char_is_digit"), (None, None, "vector_lt"), (None, None, "vector_le"),
+                      (None, None, "str_lt"), (None, None, "str_le"), (None, None, "str_is_digit"),
+                      (None, None, "str_to_code"), (None, None, "str_from_code"), (None, None, "str_to_int")],
+    },
     "PartitionGen": {
         "files": ["character_sets.rs", "smt_strings.rs", "errors.rs"],
         "types": ["CharSet", "CoverResult", "ClassId", "Error", "CharPartition"],
@@ -2465,6 +2632,22 @@ MODULES = {
                      + [(None, None, "merge_partitions")],
     },
 }
+
+
+def translate_one(ctx, key, params, ret, body, coq, mutself):
+    texts = []
+    local_fns = {}
+    for (_k, nname, nparams, nret, nbody) in extract_nested(body):
+        ncoq = "%s_%s" % (coq, nname)
+        nt = FnTranslator(ctx, key[0], ncoq, nparams, nret, nbody, False, {})
+        npure, nfuel, ntext = nt.translate()
+        local_fns[nname] = {"coq": ncoq, "ret": nt.ret, "full_ret": nt.ret, "pure": npure, "fuel": nfuel,
+                            "params": nt.params, "mutself": False}
+        ctx.aux_names.append(ncoq)
+        ctx.aux_names.append("M_" + ncoq)
+        texts.append(ntext)
+    ft = FnTranslator(ctx, key[0], coq, params, ret, body, mutself, local_fns)
+    return texts, local_fns, ft.translate()
 
 
 def extract_nested(body):
@@ -2484,27 +2667,46 @@ def translate_module(name, repo):
     ctx = Ctx(name, sources, cfg)
     out = ["(* %s.v -- GENERATED by gen/rs2v.py from %s; do not edit. *)" % (name, ", ".join("src/" + f for f in cfg["files"])),
            "Require Import Base GenBase.", "Open Scope N_scope.", ""]
+    late_consts = []
     for cname in cfg["consts"]:
-        ty, v = const_value(ctx, cname)
-        out.append("Definition %s : %s := %d%s." % (cname, ctx.coq_ty(ty), v, "%Z" if ctx.coq_ty(ty) == "Z" else ""))
+        try:
+            ty, v = const_value(ctx, cname)
+            out.append("Definition %s : %s := %d%s." % (cname, ctx.coq_ty(ty), v, "%Z" if ctx.coq_ty(ty) == "Z" else ""))
+        except Unsupported:
+            late_consts.append(cname)
     out += emit_types(ctx, cfg["types"])
+    for cname in late_consts:          # constants of a struct type: a pure expression
+        ty, e = ctx.const(cname)
+        ft = FnTranslator(ctx, None, "const_" + cname, [], ty, ("block", [], e))
+        v = ft.pure(e, {}, ty)
+        if v is None:
+            raise Unsupported("constant %s is not a pure expression" % cname)
+        out.append("Definition %s : %s := %s." % (cname, ctx.coq_ty(ty), v))
     out.append("")
     primary = sources[0]
     parsed = {}
+    keyname = {}
     for key in cfg["functions"]:
         if key not in primary.fns:
             raise Unsupported("function %s not found in %s" % ("::".join(x for x in key if x), cfg["files"][0]))
         params, ret, body, mutself = primary.parse_fn(key)
         impl = key[0]
         coq = (impl + "_" if impl else "fn_") + key[2]
+        fname = key[2]
+        if key[1] and key[1].startswith("From<") and key[2] == "from":
+            tag = key[1][5:-1].replace("&", "").replace("[", "slice_").replace("]", "").replace("<", "_").replace(">", "")
+            tag = re.sub(r"[^A-Za-z0-9_]", "", tag) or "x"
+            coq = "%s_from_%s" % (impl, tag)
+            fname = "from<%s>" % key[1][5:-1]
         if impl and ctx.struct(impl) is not None and any(f == key[2] for f, _t in ctx.struct(impl)):
             coq += "_fn"                 # a method named like a field: the projection keeps the plain name
         parsed[key] = (params, ret, body, coq, mutself)
         rret = ctx.resolve_self(ret, impl) if impl else ret
         rparams = [(n, ctx.resolve_self(t, impl)) for n, t in params]
         full = rret if not mutself else (T(impl) if rret == UNIT else ("tup", [T(impl), rret]))
-        ctx.fn_info[(impl, key[2])] = {"coq": coq, "ret": rret, "full_ret": full, "pure": None, "fuel": False,
-                                       "params": rparams, "mutself": mutself}
+        ctx.fn_info[(impl, fname)] = {"coq": coq, "ret": rret, "full_ret": full, "pure": None, "fuel": False,
+                                      "params": rparams, "mutself": mutself}
+        keyname[key] = fname
         if mutself:
             MUTATING_METHODS.add(key[2])
     done, pending = {}, list(cfg["functions"])
@@ -2514,9 +2716,20 @@ def translate_module(name, repo):
         progress = False
         for key in list(pending):
             params, ret, body, coq, mutself = parsed[key]
-            callees = called_fns(body, ctx, key[0])
-            if any(ctx.fn_info[c]["pure"] is None and c != (key[0], key[2]) for c in callees):
+            texts = []
+            saved_aux = list(ctx.aux_names)
+            try:
+                texts, local_fns, (pure, fuel, text) = translate_one(ctx, key, params, ret, body, coq, mutself)
+            except NotYet:
+                ctx.aux_names[:] = saved_aux
                 continue
+            info = ctx.fn_info[(key[0], keyname[key])]
+            info["pure"], info["fuel"] = pure, fuel
+            done[key] = "\n".join(texts + [text])
+            order.append(key)
+            pending.remove(key)
+            progress = True
+            continue
             texts = []
             local_fns = {}
             for (_k, nname, nparams, nret, nbody) in extract_nested(body):
@@ -2530,7 +2743,7 @@ def translate_module(name, repo):
                 texts.append(ntext)
             ft = FnTranslator(ctx, key[0], coq, params, ret, body, mutself, local_fns)
             pure, fuel, text = ft.translate()
-            info = ctx.fn_info[(key[0], key[2])]
+            info = ctx.fn_info[(key[0], keyname[key])]
             info["pure"], info["fuel"] = pure, fuel
             done[key] = "\n".join(texts + [text])
             order.append(key)
@@ -2542,7 +2755,7 @@ def translate_module(name, repo):
         out.append("(* %s, line %d *)" % ("::".join(x for x in (key[0], key[2]) if x), primary.fns[key]["line"]))
         out.append(done[key])
         out.append("")
-    names = [ctx.fn_info[(k[0], k[2])]["coq"] for k in order]
+    names = [ctx.fn_info[(k[0], keyname[k])]["coq"] for k in order]
     out.append("(* every generated definition, for `autounfold with rs2v` in the link proofs *)")
     out.append("Create HintDb rs2v.")
     unf = names + ["M_" + n for n in names] + list(cfg["consts"]) + [t + "_eqb" for t in cfg["types"] if "PartialEq" in ctx.derives(t)] \
@@ -2552,7 +2765,7 @@ def translate_module(name, repo):
     out.append("")
     fninfo = {}
     for k in order:
-        i = ctx.fn_info[(k[0], k[2])]
+        i = ctx.fn_info[(k[0], keyname[k])]
         fninfo[i["coq"]] = ("pure" if i["pure"] else "option") + ("+fuel" if i["fuel"] else "")
     return "\n".join(out), fninfo
 
@@ -2568,9 +2781,13 @@ def called_fns(e, ctx, impl):
             key = (None, p[0]) if len(p) == 1 else (p[0], p[1]) if len(p) == 2 else None
             if key in ctx.fn_info:
                 res.add(key)
+        if x[0] == "call" and x[1][0] == "path" and len(x[1][1]) == 2 and x[1][1][1] == "from":
+            for (i, n) in ctx.fn_info:
+                if n.startswith("from<"):
+                    res.add((i, n))
         if x[0] == "mcall":
             for (i, n) in ctx.fn_info:
-                if n == x[2] and i is not None:
+                if (n == x[2] or (x[2] == "into" and n.startswith("from<"))) and i is not None:
                     res.add((i, n))
     walk(e, f)
     return res
